@@ -119,3 +119,180 @@ def conv_success_term(conv, r):
     if r[0] == "p":
         return ("cmp", "ne", Lin.atom("&" + r[1]) + r[2], Lin.const(0))
     return ("o", "?success")
+
+
+class DFlags(Plugin):
+    """destination typestate: has this call written into dest, was dest cleared at its start / completely since, is a NUL known in dest"""
+    inline_depth = 3
+
+    def __init__(s, dest="dest", dmax="dmax", noinline=(), assume_quiet=None):
+        s.dest_name = dest
+        s.dmax_name = dmax
+        s.noinline = set(noinline) | set(PRIM_EFFECTS)
+        s.assume_quiet = dict(assume_quiet or {})
+
+    def init(s, eng):
+        fn = eng.top
+        s.prog = eng.prog
+        d = fn.pnames.get(s.dest_name)
+        m = fn.pnames.get(s.dmax_name)
+        s.root = d["id"]
+        s.unit = {"i8*": 1, "i16*": 2, "i32*": 4, "i64*": 8}.get(d["ty"], 1)
+        s.dmax = Lin.atom(m["id"]) if m and m["ty"] == "i64" else None
+        s.dmaxp = m["id"] if m and m["ty"].endswith("*") else None
+        bos = fn.pnames.get("destbos")
+        s.destbos = Lin.atom(bos["id"]) if bos else None
+        s.pinned = {"&" + s.root}
+        if s.dmax is not None:
+            s.pinned.add(m["id"])
+        if bos:
+            s.pinned.add(bos["id"])
+        # (dirty, clr_first, clr_full, nul, last stored value, last loaded value, length of the string currently in dest if measured)
+        return (False, False, False, False, None, None, None)
+
+    def no_inline(s, fn):
+        return fn.name in s.noinline
+
+    # -- helpers
+    def is_dest(s, p):
+        return p is not None and p[0] == "p" and p[1] == s.root
+
+    def full_len(s, n, eng, facts):
+        """does a clearing length n (bytes) cover the whole declared destination?"""
+        if n is None:
+            return False
+        if s.dmax is not None:
+            db = s.dmax.scale(s.unit)
+            if n == db or eng.decide(("cmp", "uge", n, db), facts) is True:
+                return True
+        if s.destbos is not None:
+            if n == s.destbos or eng.decide(("cmp", "uge", n, s.destbos - Lin.const(s.unit - 1)), facts) is True:
+                return True
+        return False
+
+    def write(s, pl, p, n, zero, eng, facts, inst=None):
+        dirty, c1, cf, nul, lst, lld, slen = pl
+        at0 = p[2].is_const() and p[2].c == 0
+        if zero:
+            ge1 = n is not None and (eng.decide(("cmp", "uge", n, Lin.const(1)), facts) is True)
+            if at0 and not ge1 and s.full_len(n, eng, facts):
+                ge1 = True         # the whole declared destination is cleared: if that is nothing, dmax is 0 and the exit is exempt
+            if at0 and ge1:
+                c1 = True
+                if s.full_len(n, eng, facts):
+                    cf = True
+                    dirty = False
+                nul = True
+            elif at0 and n is not None and slen is not None and n == slen.scale(s.unit):
+                # memset(dest, 0, strnlen(dest)): either at least one element was cleared or dest[0] already was the terminator
+                c1 = True
+                nul = True
+                if not dirty:
+                    cf = True
+            elif ge1:
+                nul = True         # slack clearing / terminator somewhere in dest
+            return (dirty, c1, cf, nul, None, lld, slen)
+        return (True, False, False, False, None, lld, None)
+
+    def on_event(s, pl, ev, eng, st):
+        k = ev[0]
+        env, facts, epoch = st
+        if k == "store":
+            p, v = ev[1], ev[2]
+            if s.is_dest(p):
+                l = eng.as_lin(v) if v[0] in ("i", "p") else None
+                size = Lin.const(ev[3].get("size", 1))
+                if l is not None and l.is_const() and l.c == 0:
+                    return s.write(pl, p, size, True, eng, facts)
+                npl = s.write(pl, p, size, False, eng, facts)
+                return npl[:4] + (l,) + npl[5:]
+            return pl
+        if k == "load":
+            p = ev[1]
+            if s.is_dest(p) and "id" in ev[2]:
+                return pl[:5] + (Lin.atom(ev[3].pre + ev[2]["id"]),) + pl[6:]
+            return pl
+        if k == "edge":
+            ct, val = ev[1], ev[2]
+            lst, lld = pl[4], pl[5]
+            if (lst is not None or lld is not None) and not pl[3]:
+                z = s.zero_test(ct, val)
+                if z is not None and (z == lst or z == lld):
+                    return pl[:3] + (True,) + pl[4:]
+            return pl
+        if k == "leave" and ev[1].name in ("_strnlen_s_chk", "_wcsnlen_s_chk") and ev[2] is not None:
+            i, fr = ev[3], ev[4]
+            a0 = eng.val(fr, i["args"][0], env)
+            if s.is_dest(a0) and a0[2].is_const() and a0[2].c == 0 and ev[2][0] == "i":
+                return pl[:6] + (ev[2][1],)
+            return pl
+        if k == "handler" and s.assume_quiet:
+            fr = ev[6]
+            f = fr
+            while f is not None and f.depth > 0:
+                if f.depth == 1 and f.fn.name in s.assume_quiet and any(x in (ev[3] or "") for x in s.assume_quiet[f.fn.name]):
+                    return "DROP"
+                f = f.parent
+        return pl
+
+    @staticmethod
+    def zero_test(ct, val):
+        """Lin x such that the edge establishes x == 0, if the condition has that shape"""
+        if ct[0] == "not":
+            return DFlags.zero_test(ct[1], not val)
+        if ct[0] == "cmp" and ct[1] in ("eq", "ne"):
+            d = ct[2] - ct[3]
+            iseq = (ct[1] == "eq") == val
+            if iseq and len(d.t) == 1 and d.c == 0:
+                (a, c), = d.t.items()
+                return Lin.atom(a)
+        if ct[0] == "and" and val:
+            return DFlags.zero_test(ct[1], True) or DFlags.zero_test(ct[2], True)
+        if ct[0] == "or" and not val:
+            return DFlags.zero_test(ct[1], False) or DFlags.zero_test(ct[2], False)
+        return None
+
+    def on_call(s, pl, call, eng, st):
+        env, facts, epoch = st
+        if call[0] == "lib":
+            callee, args = call[1], call[2]
+            effs = PRIM_EFFECTS.get(callee.name)
+            if effs:
+                for (kind, pa, la, unit, va) in effs:
+                    if pa < len(args) and s.is_dest(args[pa]):
+                        n = eng.as_lin(args[la])
+                        n = n.scale(unit) if n is not None else None
+                        if kind == "set":
+                            v = eng.as_lin(args[va])
+                            pl = s.write(pl, args[pa], n, v is not None and v.is_const() and v.c == 0, eng, facts)
+                        else:
+                            pl = s.write(pl, args[pa], n, False, eng, facts)
+                return [(pl, [])]
+            # opaque library callee receiving dest: assume it honours its own contract (string in dest or cleared on error)
+            if any(s.is_dest(a) for a in args):
+                w = s.write(pl, [a for a in args if s.is_dest(a)][0], None, False, eng, facts)
+                return [(w[:3] + (True,) + w[4:], [])]
+            return [(pl, [])]
+        if call[0] == "ext":
+            name, eff, args = call[1], call[2], call[3]
+            if name in ("strlen", "wcslen", "strnlen", "wcsnlen") and args and s.is_dest(args[0]) and args[0][2].is_const() and args[0][2].c == 0 and call[6]:
+                return [(pl[:6] + (Lin.atom(call[6]),), [])]
+            for (pa, ln) in eff.get("w", ()):
+                if pa < len(args) and s.is_dest(args[pa]):
+                    n = None
+                    if ln[0] == "arg" and ln[1] < len(args):
+                        n = eng.as_lin(args[ln[1]])
+                        n = n.scale(ln[2]) if n is not None else None
+                    elif ln[0] == "const":
+                        n = Lin.const(ln[1])
+                    zero = False
+                    if name.startswith("llvm.memset") or name in ("memset", "__memset_chk", "wmemset"):
+                        v = eng.as_lin(args[1])
+                        zero = v is not None and v.is_const() and v.c == 0
+                    if name in ("explicit_bzero", "bzero"):
+                        zero = True
+                    pl = s.write(pl, args[pa], n, zero, eng, facts)
+                    if name in ("fgets", "asctime_r", "ctime_r", "strerror_r", "snprintf", "vsnprintf", "vswprintf", "swprintf", "strcpy", "strncat", "strcat"):
+                        pl = pl[:3] + (True,) + pl[4:]      # libc routines that terminate what they write
+            return [(pl, [])]
+        return [(pl, [])]
